@@ -1007,7 +1007,14 @@ def m_type(i, args, kw, st, node):
     return UNK
 
 
+def m_object_new(i, args, kw, st, node):
+    if args and isinstance(args[0], AClass):
+        return i.new_obj(st, args[0].mod, args[0].node, havoc=False)
+    return UNK
+
+
 EXT_MODELS = {
+    "object.__new__": m_object_new,
     "len": m_len, "min": m_minmax(min), "max": m_minmax(max),
     "abs": lambda i, a, k, s, n: abs(a[0]) if a and isinstance(a[0], int) else Unknown("int"),
     "int": m_int, "bool": m_bool, "bytes": m_bytes("bytes"),
